@@ -339,8 +339,9 @@ func swapCase(s string) string {
 // stringValues: variants of the base value (case, separators, padding) + a pool of strings that
 // mean something in the world (addresses, contracts, chain and deployment ids).
 func stringValues(base string, pool []string, r *rand.Rand, n int) []mval {
-	vs := []string{"", base + "/", "/" + base, base + "/x", "a/b", base + " ", " " + base, base + "\x00", base + "\n",
-		strings.ToLower(base), strings.ToUpper(base), swapCase(base), base + base, "x", "0", "invalid"}
+	vs := append([]string{}, pool...) // values that mean something in the world first
+	vs = append(vs, "", base+"/", "/"+base, base+"/x", "a/b", base+" ", " "+base, base+"\x00", base+"\n",
+		strings.ToLower(base), strings.ToUpper(base), swapCase(base), base+base, "x", "0", "invalid")
 	if strings.HasPrefix(base, "0x") {
 		vs = append(vs, "0x"+strings.ToUpper(base[2:]), "0x"+strings.ToLower(base[2:]), base[2:], "0X"+base[2:])
 	}
@@ -354,8 +355,17 @@ func stringValues(base string, pool []string, r *rand.Rand, n int) []mval {
 			repl = 'b'
 		}
 		vs = append(vs, base[:i]+string(repl)+base[i+1:])
+		// mixed-case variants (one letter flipped): for bech32 strings these are no longer valid
+		// addresses, for hex addresses they are the same address
+		vs = append(vs, swapCase(base[:1])+base[1:])
+		for try := 0; try < 8; try++ {
+			j := r.Intn(len(base))
+			if f := swapCase(base[j : j+1]); f != base[j:j+1] {
+				vs = append(vs, base[:j]+f+base[j+1:])
+				break
+			}
+		}
 	}
-	vs = append(vs, pool...)
 	for len(vs) < n {
 		vs = append(vs, fmt.Sprintf("r%x", r.Uint64()))
 	}
